@@ -1078,6 +1078,11 @@ def run_path(fn, prefix=(), model=None, seed=0, max_branch=200000, want_model=Fa
     except RecursionError as e:  # pragma: no cover
         res.status = "abort"
         res.label = "recursion"
+    except Exception as e:
+        # an exception of the harness itself (e.g. the repository was refactored and an attribute the harness reads is gone)
+        import traceback
+        res.status = "harness-exception"
+        res.label = f"{type(e).__name__}: {e} @ " + " <- ".join(f"{fr.name}:{fr.lineno}" for fr in traceback.extract_tb(e.__traceback__)[-3:])
     res.trace = c.trace
     res.alternatives = c.alternatives
     res.queries = c.n_queries
